@@ -119,6 +119,8 @@ func propC17(c c17Case) *Outcome {
 			switch beh {
 			case "sc-err":
 				return status.Error(codes.FailedPrecondition, "stopped by "+id)
+			case "sc-ctxerr":
+				return context.Canceled // e.g. a gate interceptor whose caller gave up: results pass through unchanged
 			case "sc-ok":
 				reply.(*pb.Message).Count = 1000
 				return nil
@@ -141,6 +143,8 @@ func propC17(c c17Case) *Outcome {
 			switch beh {
 			case "sc-err":
 				return nil, status.Error(codes.FailedPrecondition, "stopped by "+id)
+			case "sc-ctxerr":
+				return nil, context.Canceled
 			case "add-opt":
 				opts = append(opts, grpc.Header(&sink))
 			case "drop-opts":
@@ -182,6 +186,7 @@ func propC17(c c17Case) *Outcome {
 	nopts := c.NOpts
 	var wantLog []string
 	reachesBase := true
+	wantBare := false // the interceptor's own bare context.Canceled must come back as is
 	wantCode := codes.OK
 	wantCount := int32(77)
 	for i := len(c.Layers) - 1; i >= 0; i-- {
@@ -199,6 +204,8 @@ func propC17(c c17Case) *Outcome {
 		switch beh {
 		case "sc-err":
 			reachesBase, wantCode, stop = false, codes.FailedPrecondition, true
+		case "sc-ctxerr":
+			reachesBase, wantCode, stop, wantBare = false, codes.Unknown, true, true
 		case "sc-ok":
 			reachesBase, wantCount, stop = false, 1000, true
 		case "add-opt":
@@ -287,6 +294,12 @@ func propC17(c c17Case) *Outcome {
 		}
 		return o
 	}
+	if wantBare {
+		if err != context.Canceled {
+			return o.failf("base=%s: interceptor returned the bare context.Canceled, the caller got %T %v (results must pass through unchanged)", c.Base, err, err)
+		}
+		return o
+	}
 	if status.Code(err) != wantCode {
 		return o.failf("base=%s: result %v, expected %v", c.Base, err, wantCode)
 	}
@@ -311,8 +324,8 @@ func sameStrings(a, b []string) bool {
 func genC17(t *rapid.T) c17Case {
 	c := c17Case{Base: rapid.SampledFrom([]string{"fake", "fake", "inproc", "http", "grpc", "grpc"}).Draw(t, "base"), Stream: rapid.Bool().Draw(t, "stream"), NOpts: rapid.IntRange(0, 2).Draw(t, "nopts")}
 	n := rapid.IntRange(0, 4).Draw(t, "depth")
-	ub := []string{"", "pass", "pass", "pass", "sc-err", "sc-ok", "add-opt", "drop-opts", "rw-method"}
-	sb := []string{"", "pass", "pass", "pass", "sc-err", "add-opt", "drop-opts", "rw-method"}
+	ub := []string{"", "pass", "pass", "pass", "sc-err", "sc-ctxerr", "sc-ok", "add-opt", "drop-opts", "rw-method"}
+	sb := []string{"", "pass", "pass", "pass", "sc-err", "sc-ctxerr", "add-opt", "drop-opts", "rw-method"}
 	for i := 0; i < n; i++ {
 		c.Layers = append(c.Layers, c17Layer{Unary: rapid.SampledFrom(ub).Draw(t, "u"), Stream: rapid.SampledFrom(sb).Draw(t, "s")})
 	}
